@@ -9,6 +9,12 @@ CLAIMED = {
     'C13': dict(engine='P', design='§8 C13', technique='bounded symbolic execution of depccg/cat.py on z3 (all paths within size/length bounds), counterexample replay',
                 text='for every pair/triple of category values within the shape and string-length bounds, with every character a solver variable, the value laws hold on every feasible path of the real __eq__/__xor__/clear_features/__str__; the hash law is decided on a solver-chosen witness per path with the real generated __hash__'),
 }
+CLAIMED.update({
+    'C05': dict(engine='P', design='§8 C05', technique='bounded symbolic execution of Category.parse/__str__ on z3 (symbolic text through the tokenizer regex), replay; exhaustive ground evaluation of shipped category strings',
+                text='for every category value within the bounds (all characters solver variables) print->parse is the identity, redundant brackets/blanks never change the value, text with two unbracketed slashes at one level is rejected; plus every shipped category string round-trips'),
+    'C03': dict(engine='P', design='§8 C03', technique='bounded symbolic execution of en.apply_binary_rules + Unification on z3 against a reference reading of the CCG schemata, replay',
+                text='for every ordered pair of categories within the shape/length bounds, every result of the real English rule functions is justified by the schema its label names and the converse (identical matched parts) holds, on every feasible path'),
+})
 REASONS = {}
 def main():
     checks = []
